@@ -178,7 +178,13 @@ _dispatch_qos_from_queue_priority(intptr_t priority)
 	case DISPATCH_QUEUE_PRIORITY_LOW:             return DISPATCH_QOS_UTILITY;
 	case DISPATCH_QUEUE_PRIORITY_DEFAULT:         return DISPATCH_QOS_DEFAULT;
 	case DISPATCH_QUEUE_PRIORITY_HIGH:            return DISPATCH_QOS_USER_INITIATED;
-	default: return _dispatch_qos_from_qos_class((qos_class_t)priority);
+	default:
+		// a qos_class_t is an unsigned int: an identifier that only equals a
+		// QoS class once it is truncated to 32 bits is not a defined identifier
+		if ((intptr_t)(qos_class_t)priority != priority) {
+			return DISPATCH_QOS_UNSPECIFIED;
+		}
+		return _dispatch_qos_from_qos_class((qos_class_t)priority);
 	}
 }
 
